@@ -10,7 +10,7 @@ UTYPES = "crates/dns-resolver/src/util/types.rs"
 TRUSTED = TRUSTED_COMMON + [
     "R9 socket stand-ins: UdpSocket::send/send_to record the datagram handed over (uninterpreted `udp_sent`), TcpStream::write_all appends to a ghost byte log, read_u16/read_buf return arbitrary data; no interleaving between awaits is modelled",
     "Message::from_octets: contract assumed here, proved in unit wire_decode",
-    "resolve(): unconstrained stand-in (any metrics, any Ok/Err result); RwLock read stand-in; Prometheus statics dropped (section 3.2-4); logging strings via shims (R27)",
+    "resolve(): stand-in (any metrics, any Ok/Err result) assumed to satisfy the answer-chain clause proved in unit local for the real `resolve`; RwLock read stand-in; Prometheus statics dropped (section 3.2-4); logging strings via shims (R27)",
     "== / != on Opcode, Rcode structural",
 ]
 
@@ -103,10 +103,35 @@ pub struct ListenArgs {
     pub cache: SharedCache,
 }
 pub struct Metrics { pub authoritative_hits: u64, pub override_hits: u64, pub blocked: u64, pub cache_misses: u64, pub cache_hits: u64, pub nameserver_hits: u64, pub nameserver_misses: u64 }
-// the resolver: completely unconstrained (any metrics, any result)
+// C10 / C09 vocabulary (same definitions as in unit local)
+pub open spec fn reached(rrs: Seq<ResourceRecord>, q: DomainName, k: int) -> DomainName { if k <= 0 { q } else { rrs[k - 1].rtype_with_data->CNAME_cname } }
+pub open spec fn chain_k(rrs: Seq<ResourceRecord>, q: DomainName, k: int) -> bool {
+    &&& 0 <= k <= rrs.len()
+    &&& forall|i: int| 0 <= i < k ==> (#[trigger] rrs[i]).rtype_with_data is CNAME && rrs[i].name == reached(rrs, q, i)
+    &&& forall|i: int| k <= i < rrs.len() ==> (#[trigger] rrs[i]).name == reached(rrs, q, k)
+}
+pub open spec fn chain_ok(rrs: Seq<ResourceRecord>, q: DomainName) -> bool { exists|k: int| #[trigger] chain_k(rrs, q, k) }
+pub open spec fn resolved_rrs(r: ResolvedRecord) -> Seq<ResourceRecord> {
+    match r {
+        ResolvedRecord::Authoritative { rrs, .. } => rrs@,
+        ResolvedRecord::NonAuthoritative { rrs, .. } => rrs@,
+        _ => Seq::<ResourceRecord>::empty(),
+    }
+}
+pub broadcast proof fn lemma_chain_nil(a: Seq<ResourceRecord>, q: DomainName)
+    requires a.len() == 0
+    ensures chain_k(a, q, 0), #[trigger] chain_ok(a, q)
+{ assert(chain_k(a, q, 0)); }
+pub broadcast proof fn lemma_append_to_nil(a: Seq<ResourceRecord>, b: Seq<ResourceRecord>)
+    requires a.len() == 0
+    ensures #[trigger] (a + b) == b
+{ assert(a + b =~= b); }
+pub broadcast group group_answer { lemma_chain_nil, lemma_append_to_nil }
+// the resolver: any metrics, any result, except for the clause unit `local` proves for `resolve` (local/resolve/post:answer_holds_only_the_question_name_and_its_alias_chain)
 #[verifier::external_body]
 pub async fn resolve(is_recursive: bool, protocol_mode: ProtocolMode, upstream_dns_port: u16, forward_address: Option<SocketAddr>,
     zones: &ZonesGuard, cache: &SharedCache, question: &Question) -> (r: (Metrics, Result<ResolvedRecord, ResolutionError>))
+    ensures question.qtype != QueryType::Wildcard && r.1 is Ok ==> chain_ok(resolved_rrs(r.1->Ok_0), question.name),
 { unimplemented!() }
 #[verifier::external_body]
 fn prune_cache_and_update_metrics(cache: &SharedCache) { unimplemented!() }
@@ -168,8 +193,10 @@ MAIN_SPECS = {
         r.header.rcode == Rcode::NameError ==> r.header.is_authoritative && r.answers@.len() == 0 && r.authority@.len() == 1, // [C01,C09:name_error_only_from_an_authoritative_name_error]
         r.answers@.len() == 0 && r.authority@.len() == 0 ==> r.header.rcode != Rcode::NoError, // [C09:servfail_when_nothing_was_resolved]
         r.header.rcode == Rcode::NoError || r.header.rcode == Rcode::NameError || r.header.rcode == Rcode::Refused || r.header.rcode == Rcode::ServerFailure,
-        r.additional@.len() == 0,""",
-        "entry": BU},
+        r.additional@.len() == 0,
+        // the answer section holds only records for the question name or its CNAME chain (ANY questions: see unit local)
+        query.questions@.len() == 1 && query.questions@[0].qtype != QueryType::Wildcard ==> chain_ok(r.answers@, query.questions@[0].name), // [C09:answer_section_holds_only_the_question_name_and_its_alias_chain]""",
+        "entry": BU + " broadcast use group_answer;"},
     "handle_raw_message": {"props": ["C09"],
         "contract": """    requires buf@.len() <= 0xffff,
     ensures
@@ -240,6 +267,7 @@ fn shim_panic_incomplete() requires false, // [C09:server_never_panics_on_a_shor
 
 
 CANARIES = [
+    {"name": "referral_ns_records_in_the_answer_section", "file": MAIN, "old": "                            response.authority.append(&mut ns_rrs);", "new": "                            response.answers.append(&mut ns_rrs);"},
     {"name": "udp_cut_at_513", "file": NET, "old": "        sock.send_to(&bytes[..512], target).await?;", "new": "        sock.send_to(&bytes[..513], target).await?;"},
     {"name": "udp_tc_not_cleared", "file": NET, "old": "        bytes[2] &= 0b1111_1101;\n        sock.send_to(bytes, target).await?;", "new": "        sock.send_to(bytes, target).await?;"},
     {"name": "udp_tc_wrong_bit", "file": NET, "old": "        bytes[2] |= 0b0000_0010;\n        sock.send_to(&bytes[..512], target).await?;", "new": "        bytes[2] |= 0b0000_0100;\n        sock.send_to(&bytes[..512], target).await?;"},
